@@ -6,6 +6,7 @@ encoder/decoder keys and class names are regenerated from /repo (Gen/C11).
 import CfVerif.Base.Struct
 import CfVerif.Proofs.C11Cache
 import CfVerif.Proofs.C11Hist
+import CfVerif.Proofs.C11Wire
 namespace CfVerif.C11
 open CfVerif
 
@@ -243,6 +244,39 @@ theorem tracked_is_last_insert (d : Path) (s : HSt) (crc : Nat) (t : Toc) (fs' :
     (ho : s.1.1.openW d (storedName d crc) = some fs') :
     (applyOp d s (.insert crc t)).2 crc = some t ∧ ∀ k, (applyOp d s (.insertCut crc t k)).2 crc = some t := by
   simp [applyOp, ho, setH]
+
+/-! ## The checksum that keys the cache is the announced one, on both protocol generations -/
+
+theorem gen_info_unpack : Gen.C11.infoFmts = ["<HI", "<BI"] ∧ Gen.C11.infoArgs = ["payload[:6]", "payload[:5]"] ∧
+    parseFmt! (infoFmt true) = [.H, .I] ∧ parseFmt! (infoFmt false) = [.B, .I] := by decide
+
+/-- The firmware's info reply (item count, then CRC-32 little-endian, possibly more bytes) is decoded to the announced
+count and checksum by the legacy (`<BI`, 5 bytes) and by the V2 (`<HI`, 6 bytes) reader alike. -/
+theorem info_reply_decodes_to_announced_crc (v2 : Bool) (n crc : Nat) (extra : List UInt8)
+    (hn : n < (if v2 then 65536 else 256)) (hc : crc < 4294967296) :
+    decodeInfo v2 (infoPayload v2 n crc extra) = .ok (n, crc) :=
+  decodeInfo_spec v2 n crc extra hn hc
+
+/-- Hence every theorem about `fetcherStep w (.info n crc)` (`hit_uses_cache`, `miss_starts_download`, ...) is about the
+packet-level fetcher of either generation: the cache is consulted under the announced checksum. -/
+theorem fetcher_uses_announced_crc (w : World) (v2 : Bool) (n crc : Nat) (extra : List UInt8)
+    (hn : n < (if v2 then 65536 else 256)) (hc : crc < 4294967296) :
+    fetcherInfoPkt w v2 (infoPayload v2 n crc extra) = fetcherStep w (.info n crc) :=
+  info_packet_uses_announced_crc w v2 n crc extra hn hc
+
+/-- Mixed generations on one cache: a table stored under checksum `c1` (by a device of any generation) is never a hit for
+a device of any generation announcing `c2 ≠ c1` - whatever byte permutation relates the two numbers; its download starts. -/
+theorem other_crc_any_generation_downloads (fs fs' : FS) (d : Path) (c1 c2 n2 : Nat) (t1 : Toc) (v2 : Bool)
+    (extra : List UInt8) (f : Fetcher) (hs : f.state = .getInfo)
+    (ho : fs.openW d (storedName d c1) = some fs') (h1 : c1 < 4294967296) (h2 : c2 < 4294967296) (hne : c1 ≠ c2)
+    (hn : n2 < (if v2 then 65536 else 256)) (hpos : 0 < n2) :
+    let s := (⟨[], some d⟩ : Cache).insert fs c1 t1
+    fetcherInfoPkt ⟨s.1, s.2, f⟩ v2 (infoPayload v2 n2 c2 extra) =
+      .ok (⟨s.1, s.2, { f with nbr := n2, crc := c2, state := .getElem, requested := 0 }⟩, [.request 0]) :=
+  other_crc_other_generation_is_miss fs fs' d c1 c2 n2 t1 v2 extra f hs ho h1 h2 hne hn hpos
+
+example : decodeInfo false [3, 0x44, 0x33, 0x22, 0x11, 9] = .ok (3, 0x11223344) ∧
+    decodeInfo true [3, 0, 0x44, 0x33, 0x22, 0x11] = .ok (3, 0x11223344) ∧ decodeInfo true [3, 0, 1] = .error .exc := by decide
 
 /-! ## Clause 4: the read-only cache directory is never written -/
 
